@@ -222,7 +222,7 @@ func traceRun(c *an.Ctx, run *ssa.Function, task *ssa.Parameter, row runRow) []r
 		}
 		// NewDefaultExecutor never fails here (os.Getwd): keep the table on the phases
 		if e, ok := v.(*ssa.Extract); ok && an.IsErrorType(e.Type()) {
-			if call, ok := e.Tuple.(*ssa.Call); ok && an.ShortCallee(&call.Call) == "pkg/executor.NewDefaultExecutor" {
+			if call, ok := e.Tuple.(*ssa.Call); ok && isExecutorCtor(call.Call.StaticCallee()) {
 				return an.AVal{K: an.ANil}, true
 			}
 		}
